@@ -105,6 +105,19 @@ func c06Histories() []c06History {
 			bad := rig.ExecSpec{RunID: t + "-a", StepID: "echo", Input: map[string]any{"n": "not a number"}, NoSigCh: true}
 			return [][]rig.ExecSpec{{bad}, {ex(t, "b", "echo", nil)}}
 		}, false},
+		{"unencodable-input-then-ok", func(t string) [][]rig.ExecSpec {
+			// the work-start message cannot be CBOR-encoded (a channel in the input): that Execute fails on the client side
+			bad := rig.ExecSpec{RunID: t + "-a", StepID: "echo", Input: map[string]any{"n": make(chan int)}, NoSigCh: true}
+			return [][]rig.ExecSpec{{bad}, {ex(t, "b", "echo", nil)}}
+		}, false},
+		{"unencodable-input-overlap", func(t string) [][]rig.ExecSpec {
+			bad := rig.ExecSpec{RunID: t + "-a", StepID: "echo", Input: map[string]any{"n": func() {}}, NoSigCh: true}
+			return [][]rig.ExecSpec{{bad, ex(t, "b", "echo", map[string]any{"mode": "gated"})}, {ex(t, "c", "echo", nil)}}
+		}, false},
+		{"unencodable-input-last", func(t string) [][]rig.ExecSpec {
+			bad := rig.ExecSpec{RunID: t + "-b", StepID: "echo", Input: map[string]any{"n": make(chan int)}, NoSigCh: true}
+			return [][]rig.ExecSpec{{ex(t, "a", "echo", nil)}, {bad}}
+		}, false},
 		{"empty-step-id-overlap", func(t string) [][]rig.ExecSpec {
 			// the server answers an empty step ID with a step-fatal error that carries no run ID
 			return [][]rig.ExecSpec{{ex(t, "a", "", nil), ex(t, "b", "echo", map[string]any{"mode": "gated"})}, {ex(t, "c", "echo", nil)}}
